@@ -793,6 +793,8 @@ pub fn run(ctx: &mut Ctx) {
     ];
     std::panic::set_hook(Box::new(|info| {
         if let Ok(mut s) = LAST_PANIC.lock() { *s = info.to_string().chars().take(300).collect(); }
+        // a panic of the harness itself (relative source path) is not caught anywhere: show it
+        if info.location().map(|l| !l.file().starts_with('/')).unwrap_or(true) { eprintln!("harness panic: {info}"); }
     }));
     if let Some(case) = ctx.replay.clone() {
         replay(ctx, &case);
